@@ -28,7 +28,12 @@
 (* frame ends that connection's reader.  Peers may be down, late, stalled  *)
 (* (never reading) or garbling (raw client writing a broken frame).  A     *)
 (* Send that finds the queue full for the enqueue timeout reports it,      *)
-(* gives that copy up and goes on (nobody panics).                         *)
+(* gives that copy up and goes on (nobody panics).  Inbound connections    *)
+(* are accepted by a loop that never waits for a peer: the TLS handshake,  *)
+(* the authentication handshake and the frames of a connection are the     *)
+(* business of that connection's own handler goroutine, so a peer that     *)
+(* connects first and then stalls at any of these steps ("install" fault)  *)
+(* delays nobody else.                                                     *)
 (***************************************************************************)
 EXTENDS Integers, Sequences, FiniteSets, TLC, Json
 
@@ -37,8 +42,10 @@ CONSTANTS Part,       \* "hs" | "fr"
           Sample,     \* hs: additional variants (seeded sample of the product) explored in "near" mode
           Progs,      \* fr: set of program sets; a program set is a sequence (one entry per goroutine) of sequences of
                       \*     [id |-> message id, to |-> sequence of destinations]
-          Faults,     \* fr: subset of {"none", "down", "late", "stalled", "garble"}
-          QCap, WCap  \* fr: queue capacity per destination, frames a stream can hold unread
+          Faults,     \* fr: subset of {"none", "down", "late", "stalled", "garble", "install"}
+          QCap, WCap, \* fr: queue capacity per destination, frames a stream can hold unread
+          SyncAccept  \* fr: FALSE = the code; TRUE = what-if: the accept loop itself completes the TLS handshake of a
+                      \*     connection before it accepts the next one (must make the check fail: falsifiability)
 
 (* ====================================================================== *)
 (*                         Part "hs": the handshake                        *)
@@ -220,13 +227,18 @@ VARIABLES fault, victim, progs,
           pc,      \* [goroutine -> <<message index, destination index>>]; message index Len+1: finished
           q,       \* [Recvs -> sequence of message ids]   the queue of the writer goroutine towards that destination
           started, \* [Recvs -> BOOLEAN]                    writer goroutine running
-          link,    \* [Recvs -> "none" | "up"]
+          link,    \* [Recvs -> "none" | "syn" | "acc" | "tls" | "up"]  node 1's connection to that receiver: not dialled, waiting
+                   \*    to be accepted, accepted (handler goroutine running), TLS established, authenticated
+          backlog, \* [Recvs -> sequence of "s" | "x"]     connections (node 1's / the stalling peer's) the accept loop has not taken yet
+          skind,   \* "install" fault: where the stalling inbound peer stops: "notls" (never sends a ClientHello), "nohs" (TLS, then
+                   \*    silence), "halfhs" (half an authentication handshake), "halfframe" (authenticated, half a frame)
+          stl,     \* the stalling peer's connection to the victim: "none" | "syn" | "acc" | "tls" | "auth"
           wire,    \* [Recvs -> sequence of message ids]   written, not yet read
           rcv,     \* [Recvs -> sequence of <<from, id>>]   handed to the application, in order
           up,      \* [Recvs -> BOOLEAN]                    something accepts connections at that address
           dropped, \* {<<goroutine, message index, destination>>}: copies given up after the enqueue timeout (reported, not sent)
           raw      \* the garbling peer's raw connection to the other receiver: [todo, wire, dead]
-fvars == <<fault, victim, progs, pc, q, started, link, wire, rcv, up, dropped, raw>>
+fvars == <<fault, victim, progs, pc, q, started, link, backlog, skind, stl, wire, rcv, up, dropped, raw>>
 
 Gs == DOMAIN progs
 Other(v) == 5 - v
@@ -234,9 +246,15 @@ Stalled(d) == fault = "stalled" /\ d = victim
 BadFrame == 0                       \* a frame announcing more than the limit / a broken frame
 RawFrames == <<101, BadFrame, 102>>   \* valid, broken, valid
 ProgsRec(ps) == [g \in DOMAIN ps |-> [k \in DOMAIN ps[g] |-> [id |-> ps[g][k].id, to |-> ps[g][k].to]]]
+StallKinds == {"notls", "nohs", "halfhs", "halfframe"}
+MaxStl(k) == CASE k = "notls" -> "acc" [] k \in {"nohs", "halfhs"} -> "tls" [] k = "halfframe" -> "auth"
 FInit == /\ fault \in Faults /\ victim \in Recvs /\ progs \in Progs
+         /\ skind \in (IF fault = "install" THEN StallKinds ELSE {"-"})
          /\ Assert(FrameLaws, "frame encoding laws violated")
-         /\ PrintT(<<"SCEN", ToJson([fault |-> fault, victim |-> victim, progs |-> ProgsRec(progs)])>>)
+         /\ PrintT(<<"SCEN", ToJson([fault |-> fault, victim |-> victim, kind |-> skind, progs |-> ProgsRec(progs)])>>)
+         \* the stalling peer has connected BEFORE anybody else dials
+         /\ stl = (IF fault = "install" THEN "syn" ELSE "none")
+         /\ backlog = [d \in Recvs |-> IF fault = "install" /\ d = victim THEN <<"x">> ELSE <<>>]
          /\ PrintT(<<"VEC", ToJson(FrameVectors)>>)
          /\ pc = [g \in DOMAIN progs |-> <<1, 1>>]
          /\ q = [d \in Recvs |-> <<>>] /\ started = [d \in Recvs |-> FALSE] /\ link = [d \in Recvs |-> "none"]
@@ -257,7 +275,7 @@ Enq(g) == /\ ~Finished(g)
              /\ q' = [q EXCEPT ![d] = Append(@, CurMsg(g).id)]
              /\ started' = [started EXCEPT ![d] = TRUE]
           /\ pc' = [pc EXCEPT ![g] = Advance(g)]
-          /\ UNCHANGED <<fault, victim, progs, link, wire, rcv, up, dropped, raw>>
+          /\ UNCHANGED <<fault, victim, progs, link, backlog, skind, stl, wire, rcv, up, dropped, raw>>
 \* the queue towards d can never drain again
 Blocked(d) == \/ (fault = "down" /\ d = victim)
               \/ (Stalled(d) /\ Len(wire[d]) >= WCap)
@@ -267,42 +285,67 @@ EnqTimeout(g) == /\ ~Finished(g)
                  /\ Len(q[CurDst(g)]) >= QCap /\ Blocked(CurDst(g))
                  /\ dropped' = dropped \cup {<<g, pc[g][1], CurDst(g)>>}
                  /\ pc' = [pc EXCEPT ![g] = Advance(g)]
-                 /\ PrintT(<<"DROP", ToJson([fault |-> fault, victim |-> victim, progs |-> ProgsRec(progs), g |-> g])>>)
-                 /\ UNCHANGED <<fault, victim, progs, q, started, link, wire, rcv, up, raw>>
-Connect(d) == /\ started[d] /\ link[d] = "none" /\ up[d]
-              /\ link' = [link EXCEPT ![d] = "up"]
-              /\ UNCHANGED <<fault, victim, progs, pc, q, started, wire, rcv, up, dropped, raw>>
-Write(d) == /\ link[d] = "up" /\ q[d] # <<>> /\ Len(wire[d]) < WCap
+                 /\ PrintT(<<"DROP", ToJson([fault |-> fault, victim |-> victim, kind |-> skind, progs |-> ProgsRec(progs), g |-> g])>>)
+                 /\ UNCHANGED <<fault, victim, progs, q, started, link, backlog, skind, stl, wire, rcv, up, raw>>
+\* the writer goroutine dials (tls.Dial returns once the receiving side has done its part of the TLS handshake)
+FDial(d) == /\ started[d] /\ link[d] = "none" /\ up[d]
+            /\ link' = [link EXCEPT ![d] = "syn"]
+            /\ backlog' = [backlog EXCEPT ![d] = Append(@, "s")]
+            /\ UNCHANGED <<fault, victim, progs, pc, q, started, skind, stl, wire, rcv, up, dropped, raw>>
+\* the accept loop of receiver d takes the oldest waiting connection and hands it to a new handler goroutine; it waits for nobody
+FAccept(d) == /\ up[d] /\ backlog[d] # <<>>
+              /\ ~SyncAccept \/ (link[d] # "acc" /\ ~(d = victim /\ stl = "acc"))
+              /\ backlog' = [backlog EXCEPT ![d] = Tail(@)]
+              /\ IF Head(backlog[d]) = "s" THEN link' = [link EXCEPT ![d] = "acc"] /\ stl' = stl
+                                           ELSE stl' = "acc" /\ link' = link
+              /\ UNCHANGED <<fault, victim, progs, pc, q, started, skind, wire, rcv, up, dropped, raw>>
+\* the handler goroutine of node 1's connection: TLS handshake, then the authentication handshake (a stalled receiver is a raw
+\* server that completes TLS and never reads)
+FTLS(d) == /\ link[d] = "acc"
+           /\ link' = [link EXCEPT ![d] = "tls"]
+           /\ UNCHANGED <<fault, victim, progs, pc, q, started, backlog, skind, stl, wire, rcv, up, dropped, raw>>
+FAuth(d) == /\ link[d] = "tls" /\ ~Stalled(d)
+            /\ link' = [link EXCEPT ![d] = "up"]
+            /\ UNCHANGED <<fault, victim, progs, pc, q, started, backlog, skind, stl, wire, rcv, up, dropped, raw>>
+\* the handler goroutine of the stalling peer's connection gets as far as that peer lets it
+XStep == /\ fault = "install" /\ stl \in {"acc", "tls"} /\ stl # MaxStl(skind)
+         /\ stl' = (IF stl = "acc" THEN "tls" ELSE "auth")
+         /\ UNCHANGED <<fault, victim, progs, pc, q, started, link, backlog, skind, wire, rcv, up, dropped, raw>>
+Write(d) == /\ link[d] \in {"tls", "up"} /\ q[d] # <<>> /\ Len(wire[d]) < WCap
             /\ wire' = [wire EXCEPT ![d] = Append(@, Head(q[d]))]
             /\ q' = [q EXCEPT ![d] = Tail(@)]
-            /\ UNCHANGED <<fault, victim, progs, pc, started, link, rcv, up, dropped, raw>>
-Read(d) == /\ up[d] /\ ~Stalled(d) /\ wire[d] # <<>>
+            /\ UNCHANGED <<fault, victim, progs, pc, started, link, backlog, skind, stl, rcv, up, dropped, raw>>
+Read(d) == /\ link[d] = "up" /\ wire[d] # <<>>
            /\ rcv' = [rcv EXCEPT ![d] = Append(@, <<1, Head(wire[d])>>)]
            /\ wire' = [wire EXCEPT ![d] = Tail(@)]
-           /\ UNCHANGED <<fault, victim, progs, pc, q, started, link, up, dropped, raw>>
+           /\ UNCHANGED <<fault, victim, progs, pc, q, started, link, backlog, skind, stl, up, dropped, raw>>
 LateUp == /\ fault = "late" /\ ~up[victim]
           /\ up' = [up EXCEPT ![victim] = TRUE]
-          /\ UNCHANGED <<fault, victim, progs, pc, q, started, link, wire, rcv, dropped, raw>>
+          /\ UNCHANGED <<fault, victim, progs, pc, q, started, link, backlog, skind, stl, wire, rcv, dropped, raw>>
 RawWrite == /\ raw.todo # <<>> /\ Len(raw.wire) < WCap
             /\ raw' = [raw EXCEPT !.todo = Tail(@), !.wire = Append(@, Head(raw.todo))]
-            /\ UNCHANGED <<fault, victim, progs, pc, q, started, link, wire, rcv, up, dropped>>
+            /\ UNCHANGED <<fault, victim, progs, pc, q, started, link, backlog, skind, stl, wire, rcv, up, dropped>>
 \* the reader of the healthy receiver on the garbling peer's connection: a broken / oversized frame ends that reader
 RawRead == /\ raw.wire # <<>> /\ ~raw.dead
            /\ IF Head(raw.wire) = BadFrame
                 THEN raw' = [raw EXCEPT !.wire = Tail(@), !.dead = TRUE] /\ rcv' = rcv
                 ELSE raw' = [raw EXCEPT !.wire = Tail(@)] /\ rcv' = [rcv EXCEPT ![Other(victim)] = Append(@, <<victim, Head(raw.wire)>>)]
-           /\ UNCHANGED <<fault, victim, progs, pc, q, started, link, wire, up, dropped>>
+           /\ UNCHANGED <<fault, victim, progs, pc, q, started, link, backlog, skind, stl, wire, up, dropped>>
 
 Healthy(d) == ~(fault \in {"down", "stalled"} /\ d = victim)
 FTerminal == /\ \A g \in Gs : Finished(g)
              /\ \A d \in Recvs : Healthy(d) => (q[d] = <<>> /\ wire[d] = <<>>)
-             /\ \A d \in Recvs : (~Healthy(d) /\ started[d]) => (link[d] = "up" \/ ~up[d])
+             /\ \A d \in Recvs : up[d] => /\ backlog[d] = <<>>
+                                          /\ ~(started[d] /\ link[d] = "none")
+                                          /\ link[d] # "acc"
+                                          /\ (link[d] = "tls" => Stalled(d))
              /\ \A d \in Recvs : Stalled(d) => (q[d] = <<>> \/ Len(wire[d]) >= WCap)
+             /\ (fault = "install" => stl = MaxStl(skind))
              /\ (raw.todo = <<>> \/ Len(raw.wire) >= WCap) /\ (raw.wire = <<>> \/ raw.dead)
              /\ (fault = "late" => up[victim])
 FNext == \/ \E g \in Gs : Enq(g) \/ EnqTimeout(g)
-         \/ \E d \in Recvs : Connect(d) \/ Write(d) \/ Read(d)
-         \/ LateUp \/ RawWrite \/ RawRead
+         \/ \E d \in Recvs : FDial(d) \/ FAccept(d) \/ FTLS(d) \/ FAuth(d) \/ Write(d) \/ Read(d)
+         \/ XStep \/ LateUp \/ RawWrite \/ RawRead
          \/ (FTerminal /\ UNCHANGED fvars)
 
 Rng(s) == {s[i] : i \in DOMAIN s}
@@ -327,13 +370,15 @@ DeliveredAtQuiescence == FTerminal => \A d \in Recvs : Healthy(d) => \A g \in Gs
                             [i \in 1..Len(SelectSeq(FromSender(d), LAMBDA x : x[2] \in IdsOf(g, d))) |->
                                 SelectSeq(FromSender(d), LAMBDA x : x[2] \in IdsOf(g, d))[i][2]] = SentSeq(g, d, FALSE)
 \* a faulty peer stops nobody: every goroutine gets through its program (what it addressed to the other peers is delivered:
-\* DeliveredAtQuiescence), and copies are given up only towards a peer that is down or stalled
+\* DeliveredAtQuiescence; with an inbound peer stalling at connection set-up every receiver is healthy, the one it latched on to
+\* included), and copies are given up only towards a peer that is down or stalled
 FaultIsolated == FTerminal => \A g \in Gs : Finished(g)
 DropsOnlyToUnresponsive == \A x \in dropped : x[3] = victim /\ fault \in {"down", "stalled"}
 (* ====================================================================== *)
 
 HIdle == atk = HonestHS /\ cst = [c \in HConns |-> [st |-> "done", node |-> 0]] /\ attr = {} /\ alive = TRUE
 FIdle == /\ fault = "none" /\ victim = 2 /\ progs = <<>> /\ pc = <<>> /\ q = <<>> /\ started = <<>> /\ link = <<>> /\ wire = <<>>
+         /\ backlog = <<>> /\ skind = "-" /\ stl = "none"
          /\ rcv = <<>> /\ up = <<>> /\ dropped = {} /\ raw = [todo |-> <<>>, wire |-> <<>>, dead |-> FALSE]
 vars == <<hvars, fvars>>
 Init == IF Part = "hs" THEN HInit /\ FIdle ELSE FInit /\ HIdle
